@@ -8,6 +8,18 @@ E1 = "explicit-state breadth-first search over operation histories on the real c
 
 # id -> (category, technique, level text, level note, design ref)
 CHECKS = {
+ "C01": ("model_checking", E1,
+         "Breadth-first search over histories of every public mutator (reference access with assignment / in-place update, getPositionRef, append, extend, position assignment with and without coordinates, scalar and fiber += / *=, fiber assignment, populate with every body, dense reference iteration run to completion and abandoned, updateCoords, updatePayloads, clear) with legal and illegal argument choices on real 1-D fibers (unowned with/without declared shape, tensor-owned) and 2x2 depth-2 trees; well-formedness is evaluated after every transition, rejected ones included, and a transition rejected for coordinate order must leave the raw tree unchanged. The value/coordinate alphabet is closed, so the shaped 1-D family runs to a fixpoint (all history lengths); the others are complete to the stated depth.",
+         "Trusted: replay of a history on a fresh object reproduces the state (asserted for every expanded state); alphabet bounds N<=3, values {0,1,2}.", "DESIGN.md §3 C01"),
+ "C02": ("model_checking", E1,
+         "Every constructor path (empty, fromFiber fresh/owned root, setRoot again, fromUncompressed, fromRandom, fromYAMLfile, makePopulated, deepcopy) and every transform result on every tree of T2(2,2) and a T3 slice is checked with the mirror predicate (rank i lists exactly the depth-i fibers, owners, chain, single root); then BFS over histories of insertions at any depth (through the tensor and through sub-fibers), nested populate loops updating every subset of offered references with inner loops optionally skipped, dense reference iteration, fiber assignment and clear on root and sub-fibers, with the predicate evaluated in every reached state; the state key contains the rank lists, so stale entries are distinct states.",
+         "Trusted: raw DFS over Fiber.payloads as the ground truth for 'the tree'; bounds 2x2, 3x2, 2x2x2.", "DESIGN.md §3 C02"),
+ "C03": ("model_checking", E1,
+         "BFS over histories of getPayload (allocate / no-allocate / caller default), getPayloadRef followed by nothing / <<= / += / *=, writes through up to two handles obtained earlier, getPosition / getPositionRef / getPayload / getPayloadRef with every legal start_pos, at every full and partial point, through Tensor and through the root Fiber, with a dict point->value stepped in lock-step: reads return the model's value and leave tree and rank lists untouched, references alias the stored payload and disturb no other point, position answers do not depend on start_pos. 1-D (shape 3) and 2x2 families run to a fixpoint; 2x2x2 and the via-Fiber 2x2 family to a stated depth; rank-0 tensors by exhaustive short histories.",
+         "Trusted: the dict reference model; value alphabet {0,1,2}; shapes <=3 per rank.", "DESIGN.md §3 C03"),
+ "C05": ("exploration", E2,
+         "Every (destination tree, source tree, loop body) triple over F1(N) at depth 1 (unowned, tensor-owned, non-zero leaf default, uncompressed source with every active range) and over T2(2,2) / a T3(2,2,2) slice at depth 2-3, bodies = every assignment of leave / assign / accumulate / set-to-default to offered leaf references and descend / skip to offered sub-fibers, run on the real lshift iterator in lock-step with a nested-dict model: yielded sequence, source payload identity, reference shows z's current value/sub-tree, well-formedness and rank lists at every yield, final raw tree equal to the model (nothing left behind, nothing outside the source touched), source unchanged.",
+         "Trusted: the nested-dict reference of populate semantics, calibrated on the pinned tree (probe q8: 104 976 cases); unowned destinations only where the library can infer the payload kind (see evidence assumptions).", "DESIGN.md §3 C05"),
  "C04": ("exploration", E2,
          "Every ordered pair / k-tuple of fibers of the stated small universes (leaf, sub-fiber, tuple-coordinate, mixed-arity, uncompressed-format and n-ary families) is run through the real operators and compared with set algebra, payload identity, mask and freshness oracles; operands and owning tensors are snapshotted before and after. Exhaustive within the bounds, which contain every relative order of the last elements of both operands and every explicit-default placement.",
          "Trusted: the harness's construction of operands through Fiber()/Tensor.fromFiber and raw reads of coords/payloads; nothing is claimed beyond N<=7 coordinates, depth 2, k<=4.", "DESIGN.md §3 C04"),
